@@ -394,9 +394,14 @@ def run_check(mod, tier, seed, replay=None):
         ctx.replay = json.load(open(replay))
     infra_error = None
 
-    # 1. translator for table-like source
+    # 1. translator for table-like source (checks that regenerate the shared table file are
+    #    serialised for their whole run, so a concurrent run against another tree cannot change
+    #    the table under a running driver)
     gen_error = None
+    tables_lock = None
     if getattr(mod, "TABLES", False):
+        tables_lock = open(os.path.join(LEAN_DIR, ".tables-verif.lock"), "w")
+        fcntl.flock(tables_lock, fcntl.LOCK_EX)
         try:
             import gen_tables
             gen_tables.generate()
